@@ -463,6 +463,8 @@ pub struct DpOpts {
     /// Fault phase followed by a fault-free phase that is long enough for the liveness bound.
     pub quiet_phase: bool,
     pub take_every_poll: bool,
+    /// `DpMaster::add()` for the last peripherals while the bus runs (every fifth world).
+    pub late_add: bool,
 }
 
 fn pick_len(r: &mut Rng, big: bool, max: usize) -> usize {
@@ -620,6 +622,7 @@ pub fn dp_world(r: &mut Rng, tier: Tier, o: &DpOpts) -> (WorldCfg, OracleCfg, Ve
             in_len,
             out_len,
             diag_buf: *r.pick(&[0usize, 0, 6, 16, 64, 244]),
+            add_at_us: 0,
         };
         // the slave behind it
         let mut sc = SlaveCfg {
@@ -772,6 +775,22 @@ pub fn dp_world(r: &mut Rng, tier: Tier, o: &DpOpts) -> (WorldCfg, OracleCfg, Ve
     let bound_us = bound_cycles * (cycle_us + other_share_us + 4 * tslot_us);
     let end_us = if o.quiet_phase { t2 + bound_us + 4 * cycle_us } else { t2 + 12 * cycle_us };
 
+    // Every fifth world: the application adds the last one or two peripherals while the bus
+    // runs (DpMaster::add() is legal at any time).  Drawn from a generator of its own so that the
+    // rest of the scenario is the one the same seed produced before this was added.
+    let mut peripherals = peripherals;
+    {
+        let mut ra = Rng::new(t1 ^ (t2 << 20) ^ u64::from(master) ^ 0xADD0_ADD0);
+        if o.late_add && !peripherals.is_empty() && ra.chance(1, 5) {
+            let late = (ra.range(1, 2) as usize).min(peripherals.len());
+            let from = peripherals.len() - late;
+            let mut at = ra.range(1, (t2 - 1).max(2));
+            for p in peripherals[from..].iter_mut() {
+                p.add_at_us = at;
+                at = (at + ra.range(0, 2 * cycle_us)).min((t2 - 1).max(1));
+            }
+        }
+    }
     let mut apps = vec![AppCfg::Dp(DpCfg {
         slots: if r.chance(1, 2) { None } else { Some(n + r.below(3) as usize) },
         reserved: 0,
@@ -1037,6 +1056,7 @@ pub fn adv_world(r: &mut Rng, tier: Tier, o: &AdvOpts) -> (WorldCfg, OracleCfg, 
                             in_len,
                             out_len,
                             diag_buf: *r.pick(&[0usize, 6, 16, 64, 244]),
+                            add_at_us: 0,
                         });
                         if r.chance(4, 5) {
                             slaves.push(SlaveCfg {
@@ -1692,6 +1712,7 @@ pub fn generate(check: &str, tier: Tier, base_seed: u64, k: u64) -> Scenario {
                         big_images: r.chance(1, 3),
                         quiet_phase: false,
                         take_every_poll: false,
+                        late_add: true,
                     };
                     let (mut w, o, mut f) = dp_world(&mut r, tier, &o);
                     w.log_all = true;
@@ -1967,6 +1988,7 @@ pub fn generate(check: &str, tier: Tier, base_seed: u64, k: u64) -> Scenario {
                 big_images: check == "C04",
                 quiet_phase: check == "C07",
                 take_every_poll: true,
+                late_add: true,
             };
             let (w, oc, f) = dp_world(&mut r, tier, &o);
             // Every fourth run: the random storm is replaced by a *systematic* placement of one or
